@@ -11,28 +11,36 @@ Inductive anyval := AErr | AInt (z : Z) | ABytes (b : bytes) | AOther.
 
 Inductive node :=
 | Node (cls tag : N) (constructed : bool) (content : bytes)
-       (children : option (list node))   (* Some iff constructed and the content is a sequence of TLVs *)
+       (children : option (list node))   (* Some iff constructed: the well-formed TLVs at the start of the content *)
        (oid : option (list N))           (* Some iff a valid universal OBJECT IDENTIFIER *)
-       (any : anyval).                   (* decoding into interface{} *)
+       (any : anyval)                    (* decoding into interface{} *)
+       (complete : bool).                (* the children are all of the content (no malformed tail) *)
 
-Definition n_cls (n : node) := let '(Node c _ _ _ _ _ _) := n in c.
-Definition n_tag (n : node) := let '(Node _ t _ _ _ _ _) := n in t.
-Definition n_cons (n : node) := let '(Node _ _ c _ _ _ _) := n in c.
-Definition n_content (n : node) := let '(Node _ _ _ c _ _ _) := n in c.
-Definition n_children (n : node) := let '(Node _ _ _ _ c _ _) := n in c.
-Definition n_oid (n : node) := let '(Node _ _ _ _ _ o _) := n in o.
-Definition n_any (n : node) := let '(Node _ _ _ _ _ _ a) := n in a.
+Definition n_cls (n : node) := let '(Node c _ _ _ _ _ _ _) := n in c.
+Definition n_tag (n : node) := let '(Node _ t _ _ _ _ _ _) := n in t.
+Definition n_cons (n : node) := let '(Node _ _ c _ _ _ _ _) := n in c.
+Definition n_content (n : node) := let '(Node _ _ _ c _ _ _ _) := n in c.
+Definition n_children (n : node) := let '(Node _ _ _ _ c _ _ _) := n in c.
+Definition n_oid (n : node) := let '(Node _ _ _ _ _ o _ _) := n in o.
+Definition n_any (n : node) := let '(Node _ _ _ _ _ _ a _) := n in a.
+Definition n_complete (n : node) := let '(Node _ _ _ _ _ _ _ c) := n in c.
 
 Definition is_universal (n : node) (tag : N) (cons : bool) : bool :=
   N.eqb (n_cls n) 0 && N.eqb (n_tag n) tag && Bool.eqb (n_cons n) cons.
 
-(* asn1.Unmarshal(x, &[]asn1.RawValue{}): a universal constructed SEQUENCE *)
+(* asn1.Unmarshal(x, &[]asn1.RawValue{}): a universal constructed SEQUENCE whose
+   whole content is well-formed TLVs *)
 Definition as_seq (n : node) : option (list node) :=
+  if is_universal n 16 true && n_complete n then n_children n else None.
+
+(* asn1.Unmarshal into a struct: a universal constructed SEQUENCE; its members
+   are read one by one from the front, whatever follows them is ignored *)
+Definition as_struct (n : node) : option (list node) :=
   if is_universal n 16 true then n_children n else None.
 
 (* into pkix.AttributeTypeAndValue{Type OID; Value any}; trailing members are tolerated *)
 Definition as_atv (n : node) : option (list N * anyval) :=
-  match as_seq n with
+  match as_struct n with
   | Some (c0 :: c1 :: _) =>
     match n_oid c0, n_any c1 with
     | Some o, AErr => None
@@ -47,7 +55,7 @@ Definition valid_bool (n : node) : bool :=
 
 (* into pkix.Extension{Id OID; Critical bool `optional`; Value []byte} *)
 Definition as_extension (n : node) : option bytes :=
-  match as_seq n with
+  match as_struct n with
   | Some (c0 :: rest) =>
     match n_oid c0 with
     | None => None
